@@ -742,7 +742,11 @@ fn process_input(
         have_pending_command = true;
     }
 
-    if !options.no_run_if_empty || have_pending_command {
+    // Without any input the command still runs once unless -r is given; with
+    // -I there is no line to substitute, so nothing is run.
+    if have_pending_command
+        || (!options.no_run_if_empty && builder_options.replace.is_none())
+    {
         result.combine(current_builder.execute()?);
     }
 
